@@ -1814,8 +1814,8 @@ impl Db {
 	}
 
 	/// (queued commits, queued bytes, logged-but-unapplied bytes, log files awaiting cleanup,
-	/// log files awaiting enactment, background error set).
-	pub fn verif_pipeline_state(&self) -> (usize, usize, i64, usize, bool, bool) {
+	/// log files awaiting enactment, background error set, reindex possibly pending).
+	pub fn verif_pipeline_state(&self) -> (usize, usize, i64, usize, bool, bool, bool) {
 		let (commits, bytes) = {
 			let queue = self.inner.commit_queue.lock();
 			(queue.commits.len(), queue.bytes)
@@ -1824,7 +1824,8 @@ impl Db {
 		let dirty = self.inner.log.num_dirty_logs();
 		let to_read = self.inner.log.has_log_files_to_read();
 		let bg_err = self.inner.bg_err.lock().is_some();
-		(commits, bytes, logged, dirty, to_read, bg_err)
+		let reindex = self.inner.next_reindex.load(Ordering::SeqCst) != 0;
+		(commits, bytes, logged, dirty, to_read, bg_err, reindex)
 	}
 }
 
